@@ -123,7 +123,7 @@ def sc_trial(V, ensemble="NVT"):
     info = f"O1:{ensemble}"
     T = 300.0
     beta = 1.0 / (kB * T)
-    n = 2
+    n = 0 if ensemble == "muVT0" else 2
     atoms = mcsim.make_atoms(V, n, momenta=(ensemble == "HMC"), extras=False)
     pes = mcsim.PES(V)
     atoms.calc = mcsim.ModelCalc("caching", pes)
@@ -149,6 +149,7 @@ def sc_trial(V, ensemble="NVT"):
         exch = mcsim.exchange_species(V, 1)
         mc = GrandCanonical(atoms, exchange_atoms=exch, temperature=T, chemical_potential=mu, number_of_exchange_particles=n, max_cycles=1, seed=11)
         move = ExchangeMove(labels)
+        ensemble = "muVT"
     mcsim.install_rng(mc, mcsim.make_rng(V))
     mc.add_move(move, name="m")
     st = mc.moves["m"]
@@ -171,6 +172,24 @@ def sc_trial(V, ensemble="NVT"):
         name, verdict = mcsim.run_trial(mc)
     except OverflowError:
         return
+    if ensemble == "muVT":
+        # O3: whether an insertion or a deletion is proposed depends on nothing but the first uniform
+        # draw and the configured bias, in EVERY state (also the empty system)
+        n_after = spy.rec["n"] if spy.rec is not None else len(atoms)
+        inserted, deleted = n_after > n, n_after < n
+        if V.mode == "sym":
+            first = [d for d in E().draws if d["kind"] == "random" and not isinstance(d["value"], np.ndarray)]
+            if first:
+                u0 = first[0]["value"]
+                if inserted:
+                    V.prove(SB(lift(u0) < lift(move.bias_towards_insert)), "O3:insertion-proposed-iff-draw-below-bias", info=info + f":N={n}")
+                else:
+                    V.prove(SB(lift(u0) >= lift(move.bias_towards_insert)), "O3:insertion-proposed-iff-draw-below-bias", info=info + f":N={n}:deleted={deleted}")
+        else:
+            dr = [d for d in (V.w.get("draws") or []) if d["kind"] == "random" and not isinstance(d["value"], list)]
+            if dr:
+                u0 = symx.wfloat(dr[0]["value"])
+                V.prove((u0 < move.bias_towards_insert) == inserted or (not inserted and not deleted and u0 >= move.bias_towards_insert), "O3:insertion-proposed-iff-draw-below-bias", info=info)
     if spy.rec is None:
         V.reach("not-attempted")
         return
@@ -241,7 +260,7 @@ replay = generic_replay(SCENARIOS)
 
 
 def _plan(tier):
-    P = [("trial", dict(ensemble=e), ("judged",)) for e in ("NVT", "HMC", "NPT", "muVT")]
+    P = [("trial", dict(ensemble=e), ("judged",)) for e in ("NVT", "HMC", "NPT", "muVT", "muVT0")]
     for op in ("Ball", "Sphere", "Box"):
         P.append(("proposal", dict(which="disp", op=op), ("done",)))
     P.append(("proposal", dict(which="rotation", n=2, cell="tric", with_translation=False), ("done",)))
@@ -255,6 +274,7 @@ def _plan(tier):
         P.append(("proposal", dict(which="deformation", op="Anisotropic", masked=False), ("done",)))
         P.append(("proposal", dict(which="deformation", op="Shape", masked=False), ("done",)))
         P.append(("hamiltonian", dict(which="reversible", n=2, nsteps=1, apply_constraints=False), ("done",)))
+    P.append(("trial", dict(ensemble="NVT"), (), "O1:acceptance==exp(W(y)-W(x))"))
     return P
 
 
